@@ -172,7 +172,7 @@ func flowAdapter() *adapter {
 				return (*flow.Rule)(nil)
 			}
 			r := &flow.Rule{ID: fmt.Sprint(rapid.IntRange(0, 9).Draw(t, "id")), Resource: res,
-				Threshold:              rapid.SampledFrom([]float64{0, 1, 2, 5}).Draw(t, "thr"),
+				Threshold:              rapid.SampledFrom([]float64{0, 1, 2, 5, 2000000000, 2000000010, 100000000, 100000001}).Draw(t, "thr"), // (huge, close thresholds are different thresholds)
 				ControlBehavior:        flow.ControlBehavior(rapid.SampledFrom([]int{0, 0, 0, 1}).Draw(t, "cb")),
 				TokenCalculateStrategy: flow.TokenCalculateStrategy(rapid.SampledFrom([]int{0, 0, 0, 1, 2}).Draw(t, "tcs")),
 				MaxQueueingTimeMs:      uint32(rapid.SampledFrom([]int{0, 100}).Draw(t, "q")),
@@ -456,6 +456,9 @@ func genCb(t *rapid.T, res string) *cb.Rule {
 		MaxAllowedRtMs: uint64(rapid.SampledFrom([]int{0, 10}).Draw(t, "maxRt")), ProbeNum: uint64(rapid.IntRange(0, 1).Draw(t, "probe"))}
 	if r.Strategy == cb.ErrorCount {
 		r.Threshold = float64(rapid.IntRange(0, 2).Draw(t, "count"))
+		if rapid.IntRange(0, 5).Draw(t, "hugeCount") == 0 {
+			r.Threshold = rapid.SampledFrom([]float64{2000000000, 2000000010, 100000000, 100000001}).Draw(t, "huge")
+		}
 	} else {
 		r.Threshold = rapid.SampledFrom([]float64{0, 0.5, 1}).Draw(t, "ratio")
 	}
